@@ -347,10 +347,22 @@ def setup():
         print(out)
         if not ok:
             return 2
-        ok, out = common.coq_make([], timeout=7000)
+        # build what the registered checks need (a file still being written for a property that is not
+        # claimed yet must not break setup); everything else is attempted with -k and only reported
+        ready = [l.strip() for l in open(os.path.join(common.VERIF, "tools", "ready.txt")) if l.strip() and not l.startswith("#")]
+        targets = []
+        for pid in ready:
+            sp = registry.PROPS[pid]
+            targets.append("theories/Props/%s.vo" % sp["props_file"])
+            targets += ["theories/Corr/%s.vo" % load_family(l["family"]).CORR for l in sp["legs"]]
+        ok, out = common.coq_make(sorted(set(targets)), timeout=7000)
         print(out[-3000:])
         if not ok:
             return 2
+        ok2, out2 = common.coq_make(["-k"], timeout=7000)
+        if not ok2:
+            print("note: files of properties not claimed yet do not build:\n" + "\n".join(
+                l for l in out2.splitlines() if l.startswith("File ") or "Error" in l)[:1500])
         ok, out = common.harness_build()
         print(out[-1500:])
         if not ok:
